@@ -553,7 +553,9 @@ func runThreads(sc *scenario, results []string) {
 
 // fresh restores first-use package state and rebuilds the scenario's shared objects.
 func fresh(sc *scenario) {
-	resetAll()
+	if !strings.HasPrefix(sc.name, "litmus/") { // litmus programs do not touch the library
+		resetAll()
+	}
 	if f := setups[sc.name]; f != nil {
 		f()
 	}
